@@ -73,7 +73,7 @@ func assignAll(g *gen.G, it *ref.Item) (map[string]ref.Val, map[string]interface
 				if x.AMax == -1 {
 					n += g.R.Intn(6)
 				} else if x.AMax > x.AMin {
-					n += g.R.Intn(x.AMax - x.AMin + 1)
+					n += g.R.Intn(spanCap(x.AMax-x.AMin) + 1)
 				}
 				s := g.ASCII(n)
 				sub[x.AVar] = ref.Val{Str: s, IsS: true}
@@ -184,4 +184,12 @@ func nonEmptyPayload(it *ref.Item) bool {
 		return len(it.Str) > 0
 	}
 	return len(it.Slots) > 0
+}
+
+// spanCap bounds the extra length drawn for an ASCII fill value (declared upper bounds may be astronomically large).
+func spanCap(span int) int {
+	if span > 8 {
+		return 8
+	}
+	return span
 }
